@@ -112,7 +112,7 @@ def pad (m : Bytes) : Bytes :=
   m ++ 0x80 :: (List.replicate (zeroPad m.length) 0 ++ putU64be (UInt64.ofNat (8 * m.length)))
 
 /-- fold the compression function over the first `n` 64-byte blocks of `bs` -/
-def hashBlocks (cf : Vars → Bytes → Vars) (h : Vars) : Nat → Bytes → Vars
+def hashBlocks {σ : Type} (cf : σ → Bytes → σ) (h : σ) : Nat → Bytes → σ
   | 0, _ => h
   | n + 1, bs => hashBlocks cf (cf h (bs.take 64)) n (bs.drop 64)
 
